@@ -574,3 +574,79 @@ package astisub
 //@   loop 5: invariant len(c) >= 1
 //@   loop 6: invariant len(c) >= 1
 //@ end
+
+// ---- SSA ----
+
+//@ func ReadFromSSAWithOptions(i io.Reader, opts SSAOptions) (o *Subtitles, err error)
+//@   prop C08 C18
+//@   requires i != nil
+//@   loop 1: invariant (sectionName == "events" || sectionName == "styles") ==> format != nil
+//@   loop 1: invariant forall m int :: 0 <= m && m < len(es) ==> es[m] != nil
+//@   loop 1: invariant forall m int :: 0 <= m && m < len(ss) ==> ss[m] != nil
+//@ end
+
+//@ func ReadFromSSA(i io.Reader) (o *Subtitles, err error)
+//@   prop C08 C18
+//@   requires i != nil
+//@ end
+
+//@ func newSSAEventFromString(header, content string, format map[int]string) (e *ssaEvent, err error)
+//@   prop C08
+//@   requires len(format) > 0
+//@   ensures err == nil ==> e != nil
+//@ end
+
+//@ func newSSAStyleFromString(content string, format map[int]string) (s *ssaStyle, err error)
+//@   prop C08
+//@   requires len(format) > 0
+//@   ensures err == nil ==> s != nil
+//@ end
+
+//@ func newSSAEventFromItem(i Item) (e *ssaEvent)
+//@   prop C08
+//@   ensures e != nil
+//@ end
+
+//@ func newSSAStyleFromStyle(i Style) *ssaStyle
+//@   prop C08
+//@   ensures result != nil
+//@ end
+
+//@ func newSSAScriptInfo(m *Metadata) (o *ssaScriptInfo)
+//@   prop C08
+//@   ensures o != nil
+//@ end
+
+//@ func ssaUpdateFormat(n string, formatMap map[string]bool, format []string) []string
+//@   prop C08
+//@   requires formatMap != nil
+//@ end
+
+//@ func (s ssaStyle) updateFormat(formatMap map[string]bool, format []string) []string
+//@   prop C08
+//@   requires formatMap != nil
+//@ end
+
+//@ func newSSAColorFromColor(i *Color) string
+//@   prop C08
+//@   requires i != nil
+//@ end
+
+//@ func (s ssaStyle) style() (o *Style)
+//@   prop C08
+//@   ensures o != nil
+//@ end
+
+//@ func (e *ssaEvent) item(styles map[string]*Style) (i *Item, err error)
+//@   prop C08
+//@   loop 3: invariant 0 <= previousEffectEndOffset && previousEffectEndOffset <= len(s)
+//@   loop 3: invariant ($k3 == 0 && lineItem == nil && previousEffectEndOffset == 0) || ($k3 > 0 && lineItem != nil && previousEffectEndOffset == matches[$k3 - 1][1])
+//@ end
+
+//@ func (s Subtitles) WriteToSSA(o io.Writer) (err error)
+//@   prop C08 C18 C19
+//@   requires writable(s) && o != nil
+//@   loop 1: invariant forall m int :: 0 <= m && m < len(styleNames) ==> has(styles, styleNames[m]) && styles[styleNames[m]] != nil
+//@   loop 1: invariant styles != nil && formatMap != nil
+//@   loop 2: invariant forall m int :: 0 <= m && m < len(styleNames) ==> has(styles, styleNames[m]) && styles[styleNames[m]] != nil
+//@ end
